@@ -489,6 +489,64 @@ func TestVfRobust(t *testing.T) {
 		r.one(id, "mutation-batch", []string{"udp", "tcp"}[(i/batch)%2], raws, false)
 		ncase++
 	}
+	// (2b) truncated streams: a TCP peer sends a proper prefix of a well-formed message - cut inside the start line, inside
+	// or between header lines, inside the body - and ends the stream (FIN).  What arrived cannot be decoded into a message:
+	// the proxy must close that connection (the client sees end-of-stream), and keep serving
+	if r.dead < 3 && !skip["NOTRUNC"] {
+		ncut := vfEnvInt("VERIF_NCUT", 24)
+		for ci, m := range vfCorpus {
+			cuts := map[int]bool{1: true, len(m) - 1: true, strings.Index(m, "\r\n"): true, strings.Index(m, "\r\n") + 2: true, strings.Index(m, "\r\n\r\n"): true, strings.Index(m, "\r\n\r\n") + 2: true}
+			for len(cuts) < ncut {
+				cuts[1+r.rnd.Intn(len(m)-1)] = true
+			}
+			var cs []int
+			for c := range cuts {
+				if c >= 1 && c < len(m) {
+					cs = append(cs, c)
+				}
+			}
+			sort.Ints(cs)
+			for _, c := range cs {
+				id := fmt.Sprintf("trunc%d.%d", ci, c)
+				where := "header-section"
+				if he := strings.Index(m, "\r\n\r\n"); c > he+3 {
+					where = "body"
+				} else if c <= strings.Index(m, "\r\n") {
+					where = "start-line"
+				}
+				cls := "truncated-stream cut-in=" + where
+				if skipped(cls) || r.dead >= 3 {
+					continue
+				}
+				r.curCls = cls
+				r.mark(id, []byte(m[:c]))
+				var ms0, ms1 runtime.MemStats
+				runtime.ReadMemStats(&ms0)
+				cl := vfDial(r.t, r.g.ip("10.0.5.5"), r.la, r.tport)
+				cl.write([]byte(m[:c]))
+				syscall.Shutdown(cl.fd, syscall.SHUT_WR)
+				closed := false
+				for end := time.Now().Add(2 * time.Second); time.Now().Before(end); {
+					if _, x := cl.poll(); x {
+						closed = true
+						break
+					}
+					time.Sleep(time.Millisecond)
+				}
+				cl.close()
+				r.nsent += 2
+				ok := r.waitSentinel(r.nsent, "tcp")
+				runtime.ReadMemStats(&ms1)
+				if ok {
+					r.dead = 0
+				} else {
+					r.dead++
+				}
+				r.tr.Emit(vfM{"ev": "hostile", "case": id, "cls": cls, "tr": "tcp", "bytes": c, "alloc_kib": int(int64(ms1.TotalAlloc-ms0.TotalAlloc) / 1024), "sentinel": ok, "garbage": true, "closed": closed})
+				ncase++
+			}
+		}
+	}
 	// (3) out-of-protocol histories emitted by TLC (RobustHist): every message well-formed, all of one dialog,
 	// from a client address or from a backend's address, in both orientations of From / To
 	if in := vfEnv("VERIF_HIST", ""); in != "" && r.dead < 3 && !skip["NOHIST"] {
